@@ -1281,3 +1281,63 @@ def set_sys_phases_rule(model, rep, rule):
 
 def lift0():
     return lift(0)
+
+
+PHASE_CONF_WRITERS = {"__init__", "from_file", "add_source", "add_comp", "change_comp", "del_comp", "set_comp_phases"}
+
+
+def phase_conf_writers_rule(model, rep, rule):
+    """who may write the per-component phase configuration (it decides which components are inactive in a phase)"""
+    rel = model.rel("system")
+    ok = True
+    n = 0
+    for mod, qn, fn in model.all_functions():
+        if mod != "system":
+            continue
+        short = qn.split(".")[-1]
+        for x in ast.walk(fn):
+            hit = None
+            if isinstance(x, (ast.Assign, ast.AugAssign, ast.Delete)):
+                tg = x.targets if isinstance(x, (ast.Assign, ast.Delete)) else [x.target]
+                for t in tg:
+                    for tt in (t.elts if isinstance(t, (ast.List, ast.Tuple)) else [t]):
+                        if registry_of(tt) == "phase_conf" or (isinstance(tt, ast.Subscript) and registry_of(tt.value) == "phase_conf"):
+                            hit = x
+            if isinstance(x, ast.Call) and isinstance(x.func, ast.Attribute) and x.func.attr in MUTATORS and registry_of(x.func.value) == "phase_conf":
+                hit = x
+            if hit is not None:
+                n += 1
+                if short not in PHASE_CONF_WRITERS:
+                    ok = False
+                    rep.violation(rule, "system.%s" % qn, "%s:%d" % (rel, hit.lineno), "%s rewrites the per-component phase configuration: components configured as inactive in a phase can silently become active" % short, "phase_conf written by " + short)
+    if n == 0:
+        raise AnalysisError("no writer of the phase configuration found")
+    rep.instance(rule, "per-component phase configuration written only by the edit / configuration methods", "%s:1" % rel, ok, "%d write sites" % n)
+
+
+def phase_lookup_rule(model, rep, r, rule):
+    """the per-node phase table handed to the laws is the registry entry of the same component, for every kind"""
+    rel = model.rel("system")
+    lfn = model.own_method("System", r["SET_PHLK"])
+    loop = find_loop(lfn, lambda l: isinstance(l, ast.For), "phase lookup loop")
+    ok = False
+    for s in ast.walk(loop):
+        if isinstance(s, ast.Assign) and isinstance(s.targets[0], ast.Subscript):
+            key, val = s.targets[0].slice, s.value
+            if isinstance(key, ast.Call) and isinstance(key.func, ast.Attribute) and key.func.attr == "_get_index":
+                it = ast.dump(loop.iter)
+                if "phase_conf" in it and ".items" in ast.unparse(loop.iter):
+                    tgt = loop.target
+                    if isinstance(tgt, ast.Name):
+                        ok = ast.unparse(key.args[0]) == tgt.id + "[0]" and ast.unparse(val) == tgt.id + "[1]"
+                    elif isinstance(tgt, ast.Tuple) and len(tgt.elts) == 2:
+                        ok = ast.unparse(key.args[0]) == tgt.elts[0].id and ast.unparse(val) == tgt.elts[1].id
+                elif "phase_conf" in it:
+                    tgt = loop.target
+                    ok = isinstance(tgt, ast.Name) and ast.unparse(key.args[0]) == tgt.id and ast.unparse(val).endswith('["phase_conf"][%s]' % tgt.id)
+    # nothing in the loop may make the entry conditional on the component
+    if any(isinstance(x, (ast.If, ast.IfExp)) for x in ast.walk(loop)):
+        ok = False
+    if not ok:
+        rep.violation(rule, "system.System.%s" % r["SET_PHLK"], "%s:%d" % (rel, loop.lineno), "the per-node phase table is not unconditionally the registry entry of the same component", "phase lookup map")
+    rep.instance(rule, "system.System.%s name -> index map" % r["SET_PHLK"], "%s:%d" % (rel, loop.lineno), ok)
